@@ -133,6 +133,17 @@ def buildBatches (bs : Nat) (actors : List Actor) (grains : List Grain) : List B
 
 /-! ### redistribution after a target became unreachable -/
 
+/-- a cluster peer as `survivingPeersExcept` sees it: remoting endpoint + advertised roles -/
+structure Peer where
+  host : Nat
+  port : Nat
+  roles : List Role
+deriving DecidableEq, Repr
+
+/-- `survivingPeersExcept`: every peer other than `target`, matched on host AND remoting port, order kept -/
+def survivingPeersExcept (peers : List Peer) (target : Peer) : List Peer :=
+  peers.filter (fun p => !(p.host == target.host && p.port == target.port))
+
 /-- `leastLoadedEligibleSurvivor`: same scan, the load of a survivor is the length of its share -/
 def leastLoadedEligibleSurvivor (survivors : List (List Role)) (shares : List (List Actor)) (role : Role) : Option Nat :=
   pickTarget survivors (shares.map List.length) role
